@@ -934,7 +934,7 @@ def fbWorldN (n0 n1 : String) (line : List Char) : List Client :=
                           names := [n0.toList, n1.toList], stderr := line } }] }]
 
 open ConfModel.FeedbackLine in
-/-- **Finding F29 (known, not repaired): feedback for a test case whose name contains `": "` is lost.**
+/-- **Finding F32 (known, not repaired): feedback for a test case whose name contains `": "` is lost.**
 Test names are not validated anywhere; `S/x: y` is a name a `--test-file` may use.  The reference
 server's printer writes the complaint correctly (`prefixLine`), but the runner's reader splits the line
 at the FIRST `": "`: the front part `S/x` is not a test case of the batch, the line is forwarded as
